@@ -202,8 +202,13 @@ class WalkUnit(ApiUnit):
         r = self.responses[-1]
         if self.bulk:
             ks = [("D1", self.k_d1(r)), ("D2", self.k_d2(r)), ("D18", self.k_d18(r))]
-        else:
+        elif self.phase == "prologue":
             ks = [("D1", self.k_d1(r))]
+        else:
+            # GETNEXT walk, a request of the loop: the code asks in ascending root order, where an exhausted column cannot
+            # precede a live one (no instance follows the exhausted column's OID, and every later column's OID does): the
+            # situation of finding D1 arises in the FIRST request only, which goes out in listing order
+            ks = []
         return ks
 
     # Only the obligations that the recorded defects actually break carry their patterns: the
